@@ -3954,6 +3954,227 @@ def emit_struct5(o, repo, T):
                 f'  {body}')
     o.const('xpc.build_xpc.loop', build_xpc_loop)
 
+    # ---- `topological_order` / `topological_order_layered` (deeprob/spn/structure/node.py): Kahn's algorithm --------------------
+    # Roles (renaming a local changes nothing): root = the only parameter, the counters = the variable created by
+    # `defaultdict(int)`, the result = the variable returned at the end, the queue = the loop condition (plain variant), the
+    # current layer = the list created inside the loop (layered variant); loop variables get canonical names x1, x2.
+    def kahn_fragment(q, layered):
+        nodepy = T.parse_file(repo, 'deeprob/spn/structure/node.py')
+        fn = T.find_func(nodepy, q)
+        stmts = nodoc(fn.body)
+        params = [a.arg for a in fn.args.args]
+        if len(params) != 1 or fn.args.vararg or fn.args.kwarg or fn.args.kwonlyargs or fn.args.posonlyargs or fn.args.defaults:
+            raise U(f'{q}: expected the single parameter root, found {params}')
+        root = params[0]
+        # module-level names the function relies on: `deque`, `defaultdict` from collections; `bfs` the function of this module
+        coll = {a.asname or a.name for st in nodepy.body if isinstance(st, ast.ImportFrom) and st.module == 'collections' for a in st.names}
+        if not {'deque', 'defaultdict'} <= coll:
+            raise U(f'{q}: deque / defaultdict are not imported from collections')
+        T.find_func(nodepy, 'bfs')
+        top_defs = [st.name for st in nodepy.body if isinstance(st, (ast.FunctionDef, ast.ClassDef))]
+        for nm in ('bfs', 'deque', 'defaultdict', 'list', 'sum', 'int'):
+            if top_defs.count(nm) != (1 if nm == 'bfs' else 0):
+                raise U(f'{q}: {nm} is (re)defined at module level')
+            for st in nodepy.body:
+                if isinstance(st, (ast.Assign, ast.AnnAssign, ast.AugAssign)) and any(isinstance(n, ast.Name) and n.id == nm for n in ast.walk(st)
+                                                                                    if isinstance(getattr(n, 'ctx', None), ast.Store)):
+                    raise U(f'{q}: {nm} is assigned at module level')
+        for n in ast.walk(fn):
+            if isinstance(n, ast.Name) and isinstance(n.ctx, (ast.Store, ast.Del)) and n.id in (root, 'bfs', 'deque', 'defaultdict', 'list', 'sum', 'int'):
+                raise U(f'{q}: {n.id} is assigned inside the function')
+            if isinstance(n, (ast.Global, ast.Nonlocal, ast.Lambda, ast.FunctionDef, ast.ClassDef)) and n is not fn:
+                raise U(f'{q}: nested scope / global statement')
+        # node objects are dictionary keys BY IDENTITY, `children` is a plain attribute
+        for cname in ('Node', 'Sum', 'Product'):
+            cls = T.the([st for st in nodepy.body if isinstance(st, ast.ClassDef) and st.name == cname], f'class {cname}')
+            for st in cls.body:
+                if isinstance(st, ast.FunctionDef) and (st.name in ('__eq__', '__ne__', '__hash__', '__getattr__', '__getattribute__')
+                                                        or (st.name == 'children' or any(isinstance(d, ast.Name) and d.id == 'property' and st.name == 'children'
+                                                                                         for d in st.decorator_list))):
+                    raise U(f'{cname}.{st.name}: node identity / the attribute `children` is no longer what the model reads')
+        loop = T.the([st for st in stmts if isinstance(st, ast.While)], f'{q}: while loop')
+        k = stmts.index(loop)
+        before, after = stmts[:k], stmts[k + 1:]
+        # roles
+        cnts = [st.targets[0].id for st in before if isinstance(st, ast.Assign) and len(st.targets) == 1 and isinstance(st.targets[0], ast.Name)
+                and isinstance(st.value, ast.Call) and T.dotted_name(st.value.func) == 'defaultdict']
+        cnt = T.the(cnts, f'{q}: the dictionary created by defaultdict')
+        if not (len(after) == 2 and isinstance(after[1], ast.Return) and isinstance(after[1].value, ast.Name)):
+            raise U(f'{q}: after the loop: {[txt(st) for st in after]}, expected the cycle test and `return <ordering>`')
+        res = after[1].value.id
+        if layered:
+            if not (isinstance(loop.test, ast.Constant) and loop.test.value is True):
+                raise U(f'{q}: the loop is not `while True:`')
+            lay = [st.targets[0].id for st in nodoc(loop.body) if isinstance(st, ast.Assign) and len(st.targets) == 1
+                   and isinstance(st.targets[0], ast.Name) and isinstance(st.value, (ast.Call, ast.List))]
+            layer = T.the(lay, f'{q}: the list created inside the loop')
+            queue = None
+            roles = {root, cnt, res, layer}
+        else:
+            if not isinstance(loop.test, ast.Name):
+                raise U(f'{q}: the loop condition is not a variable')
+            queue, layer = loop.test.id, None
+            roles = {root, cnt, res, queue}
+        if len(roles) != 4:
+            raise U(f'{q}: the roles of the variables overlap: {sorted(roles)}')
+        CNT = {cnt: ('getCount', 'setCount', 'emptyCount', 'sumValues')}
+        common = dict(methods={}, ctors={}, tables={}, attrs={'children': 'children'}, opaque={'bfs': ('bfs', [None])}, counters=CNT)
+        # ---- prologue: counters, the root test, the initial queue / first layer
+        state0 = [(cnt, 'num_outgoings'), (res, 'ordering')] + ([] if layered else [(queue, 'queue')])
+        lp0 = listprog.LP(T, q, state0, types={cnt: 'D'}, **common)
+        env, guard, cnt_at_guard = {root: ('t', 'root')}, None, None
+        for st in before:
+            if isinstance(st, ast.If):
+                if guard is not None or st.orelse or not (len(st.body) == 1 and isinstance(st.body[0], ast.Return)
+                                                           and isinstance(st.body[0].value, ast.Constant) and st.body[0].value.value is None):
+                    raise U(f'{q}: unexpected `if` before the loop: {txt(st)}')
+                if cnt not in env:
+                    raise U(f'{q}: the root test precedes the counters')
+                cnt_at_guard = lp0.term(env[cnt])
+                guard = lp0.term(lp0.ex(st.test, {root: ('t', 'root'), cnt: ('t', 'num_outgoings')}))
+            else:
+                env = lp0.stmt(st, env)
+        if guard is None:
+            raise U(f'{q}: no `if <counter of the root> != 0: return None` before the loop')
+        for v in (cnt, res) + (() if layered else (queue,)):
+            if v not in env:
+                raise U(f'{q}: {v} is not initialised before the loop')
+        init = lp0.term(env[cnt])
+        if cnt_at_guard != init:
+            raise U(f'{q}: the counters change between the root test and the loop')
+        extra = sorted(set(env) - {root, cnt, res, queue})
+        if extra:
+            raise U(f'{q}: further variables before the loop: {extra}')
+        want_res = '([] ++ [[root]])' if layered else '[]'
+        if lp0.term(env[res]) != want_res:
+            raise U(f'{q}: the result list starts as {lp0.term(env[res])}, expected {want_res}')
+        if not layered and lp0.term(env[queue]) != '[root]':
+            raise U(f'{q}: the queue starts as {lp0.term(env[queue])}, expected [root]')
+        if not layered:
+            qinit = T.the(T.assignments(fn, queue), f'{q}: {queue}')
+            if not (isinstance(qinit, ast.Call) and T.dotted_name(qinit.func) == 'deque'):
+                raise U(f'{q}: the queue is not a deque (popleft on a list does not exist)')
+        # ---- epilogue: `if sum(<counters>.values()) != 0: return None`, `return <ordering>`
+        ep = after[0]
+        if not (isinstance(ep, ast.If) and not ep.orelse and len(ep.body) == 1 and isinstance(ep.body[0], ast.Return)
+                and isinstance(ep.body[0].value, ast.Constant) and ep.body[0].value.value is None):
+            raise U(f'{q}: after the loop: {txt(ep)}, expected `if <cycle test>: return None`')
+        cyc = lp0.term(lp0.ex(ep.test, {cnt: ('t', 'num_outgoings')}))
+        # ---- the loop
+        pre = 'S5layered' if layered else 'S5topo'
+        SIG = '{N D : Type} (children : N → List N) (getCount : D → N → Int) (setCount : D → N → Int → D)'
+        doc_roles = ('`children n` = `n.children` (attribute read), the dictionary of counters (the variable created by `defaultdict(int)`, keys = '
+                     'node objects by identity: `Node` / `Sum` / `Product` define no `__eq__` / `__hash__`, checked) is an abstract table `D` with '
+                     '`getCount d k` = `d[k]` (0 for a missing key), `setCount d k v` = `d[k] = v`, `emptyCount` = `defaultdict(int)`, '
+                     '`sumValues d` = `sum(d.values())`; loop variables are named `x<depth>`, fold states `st<depth>`')
+        defs = [
+            f'/-- `{q}` (structure/node.py), prologue: the counters after `num_outgoings = defaultdict(int); num_outgoings[root] = 0; for node in '
+            f'bfs(root): for c in node.children: num_outgoings[c] += 1`; `bfs` = the function `bfs` of the module (opaque here). {doc_roles} -/\n'
+            f'def {pre}Init {SIG} (emptyCount : D)\n    (bfs : N → List N) (root : N) : D :=\n  {init}',
+            f'/-- `{q}`: the test after the counting loop under which `None` is returned (a trivial cycle through the root) -/\n'
+            f'def {pre}RootGuard {{N D : Type}} (getCount : D → N → Int) (num_outgoings : D) (root : N) : Bool :=\n  {guard}']
+        if layered:
+            lp = listprog.LP(T, q, [(cnt, 'num_outgoings'), (res, 'ordering')], lists={layer}, last_of={res},
+                             types={cnt: 'D', res: 'List (List N)', layer: 'List N'}, **common)
+            body = lp.loop_step_forever(loop, 'raised')
+            if lp.need_last != res:
+                raise U(f'{q}: the loop does not read <ordering>[-1]')
+            defs.append(
+                f'/-- `{q}`: one iteration of `while True:` as a function of the loop state (`num_outgoings`, `ordering`), started from '
+                '(the counters, `[[root]]`); the first component is the condition of `break` (`not layer`: the new layer is empty), the other two '
+                'the state when the iteration ends (at the `break`, or after `ordering.append(layer)`); `last` = `ordering[-1]`, `raised` = the '
+                'branch in which `ordering[-1]` raises IndexError (never taken: `ordering` starts non-empty and only grows) -/\n'
+                f'def {pre}Step {SIG}\n    (raised : Bool × D × List (List N)) (num_outgoings : D) (ordering : List (List N)) : Bool × D × List (List N) :=\n'
+                f'  {body}')
+            rty = 'List (List N)'
+        else:
+            lp = listprog.LP(T, q, [(queue, 'queue'), (cnt, 'num_outgoings'), (res, 'ordering')],
+                             types={cnt: 'D', res: 'List N', queue: 'List N'}, **common)
+            body = lp.loop_step_queue(loop, 'node')
+            defs.append(
+                f'/-- `{q}`: one iteration of `while queue:` as a function of the loop state (`queue`, `num_outgoings`, `ordering`), started from '
+                '(`deque([root])`, the counters, `[]`); the deque is a list whose FRONT is its head (`popleft` = head / tail, `append` = at the end) -/\n'
+                f'def {pre}Step {SIG}\n    (queue : List N) (num_outgoings : D) (ordering : List N) : List N × D × List N :=\n'
+                f'  {body}')
+            rty = 'List N'
+        defs.append(
+            f'/-- `{q}`, epilogue: `None` when the cycle test holds on the final counters, the ordering otherwise -/\n'
+            f'def {pre}Result {{N D : Type}} (sumValues : D → Int) (num_outgoings : D) (ordering : {rty}) : Option ({rty}) :=\n'
+            f'  if {cyc} then none else some ordering')
+        return defs
+    o.const('node.topological_order.loop', lambda: kahn_fragment('topological_order', False))
+    o.const('node.topological_order_layered.loop', lambda: kahn_fragment('topological_order_layered', True))
+
+    # ---- the generators `bfs` / `dfs_post_order` (structure/node.py): what they yield, as a list ---------------------------------
+    # Roles: root = the only parameter, the set = the variable bound to `{root}`, the queue / stack = the loop condition.
+    def walk_fragment(q, dfs):
+        nodepy = T.parse_file(repo, 'deeprob/spn/structure/node.py')
+        fn = T.find_func(nodepy, q)
+        stmts = nodoc(fn.body)
+        params = [a.arg for a in fn.args.args]
+        if len(params) != 1 or fn.args.vararg or fn.args.kwarg or fn.args.kwonlyargs or fn.args.posonlyargs or fn.args.defaults:
+            raise U(f'{q}: expected the single parameter root, found {params}')
+        root = params[0]
+        coll = {a.asname or a.name for st in nodepy.body if isinstance(st, ast.ImportFrom) and st.module == 'collections' for a in st.names}
+        if 'deque' not in coll:
+            raise U(f'{q}: deque is not imported from collections')
+        for st in nodepy.body:
+            if isinstance(st, (ast.FunctionDef, ast.ClassDef)) and st.name in ('deque', 'set'):
+                raise U(f'{q}: {st.name} is redefined at module level')
+        for n in ast.walk(fn):
+            if isinstance(n, ast.Name) and isinstance(n.ctx, (ast.Store, ast.Del)) and n.id in (root, 'deque', 'set'):
+                raise U(f'{q}: {n.id} is assigned inside the function')
+            if isinstance(n, (ast.Global, ast.Nonlocal, ast.Lambda, ast.FunctionDef, ast.ClassDef, ast.Return)) and n is not fn:
+                raise U(f'{q}: nested scope / global / return statement')
+        for cname in ('Node', 'Sum', 'Product'):
+            cls = T.the([st for st in nodepy.body if isinstance(st, ast.ClassDef) and st.name == cname], f'class {cname}')
+            for st in cls.body:
+                if isinstance(st, ast.FunctionDef) and st.name in ('__eq__', '__ne__', '__hash__', '__getattr__', '__getattribute__', 'children'):
+                    raise U(f'{cname}.{st.name}: node identity / the attribute `children` is no longer what the model reads')
+        if len(stmts) != 2 or not isinstance(stmts[1], ast.While) or not isinstance(stmts[1].test, ast.Name):
+            raise U(f'{q}: expected one initialisation and `while <queue>:`, found {[txt(st)[:40] for st in stmts]}')
+        loop, work = stmts[1], stmts[1].test.id
+        st0 = stmts[0]
+        if not (isinstance(st0, ast.Assign) and len(st0.targets) == 1):
+            raise U(f'{q}: the statement before the loop is not an assignment')
+        t0, v0 = st0.targets[0], st0.value
+        pairs = list(zip(t0.elts, v0.elts)) if isinstance(t0, ast.Tuple) and isinstance(v0, ast.Tuple) and len(t0.elts) == len(v0.elts) else [(t0, v0)]
+        if len(pairs) != 2 or not all(isinstance(a, ast.Name) for a, _ in pairs):
+            raise U(f'{q}: expected `<seen>, <{work}> = {{root}}, …`, found {txt(st0)}')
+        seen = T.the([a.id for a, b in pairs if isinstance(b, ast.Set)], f'{q}: the set of seen nodes')
+        if {a.id for a, _ in pairs} != {seen, work} or seen == work or root in (seen, work):
+            raise U(f'{q}: the variables before the loop are not the set and the loop condition')
+        Y = '$yielded'
+        state = [(work, 'nodes_stack' if dfs else 'queue'), (seen, 'seen'), (Y, 'yielded')]
+        lp = listprog.LP(T, q, state, methods={}, ctors={}, tables={}, attrs={'children': 'children'}, sets={seen}, yields=Y,
+                         types={work: 'List N', seen: 'List N'})
+        env = {root: ('t', 'root')}
+        for a, b in pairs:
+            env = lp.stmt(ast.Assign(targets=[a], value=b), env)
+        if lp.term(env[seen]) != '[root]' or lp.term(env[work]) != '[root]':
+            raise U(f'{q}: the set / the {"stack" if dfs else "queue"} do not start as {{root}} / [root]')
+        wv = dict((a.id, b) for a, b in pairs)[work]
+        if dfs != isinstance(wv, ast.List):
+            raise U(f'{q}: the {"stack is not a list" if dfs else "queue is not a deque"}')
+        doc = ('`children n` = `n.children` (attribute read); the set of seen nodes is a list (it is read through membership tests only), `isIn` = '
+               'identity membership (`Node` / `Sum` / `Product` define no `__eq__` / `__hash__`, checked); `yielded` = everything the generator has '
+               'produced so far, in order; loop variables are named `x<depth>`, fold states `st<depth>`')
+        if dfs:
+            body = lp.loop_step_stack(loop, 'node')
+            return (f'/-- `{q}` (structure/node.py): one iteration of `while stack:` as a function of (`nodes_stack`, `seen`, `yielded`), started from '
+                    f'(`[root]`, `{{root}}`, nothing yielded); the stack is a list whose TOP is its last entry. {doc} -/\n'
+                    'def S5dfsStep {N : Type} (children : N → List N) (isIn : N → List N → Bool)\n'
+                    '    (nodes_stack seen yielded : List N) : List N × List N × List N :=\n'
+                    f'  {body}')
+        body = lp.loop_step_queue(loop, 'node')
+        return (f'/-- `{q}` (structure/node.py): one iteration of `while queue:` as a function of (`queue`, `seen`, `yielded`), started from '
+                f'(`deque([root])`, `{{root}}`, nothing yielded); the deque is a list whose FRONT is its head. {doc} -/\n'
+                'def S5bfsStep {N : Type} (children : N → List N) (isIn : N → List N → Bool)\n'
+                '    (queue seen yielded : List N) : List N × List N × List N :=\n'
+                f'  {body}')
+    o.const('node.bfs.loop', lambda: walk_fragment('bfs', False))
+    o.const('node.dfs_post_order.loop', lambda: walk_fragment('dfs_post_order', True))
+
 
 # =========================================================================================================
 # Fifth wave, (b) (Oblig/Struct5Grad.lean): the per-node rules of `eval_backward` (deeprob/spn/algorithms/gradient.py) over an
